@@ -39,7 +39,8 @@ RULE = ("generated scripts of 1-14 operations over the store API (save/replace i
 ASSUMPTIONS = [
     "crash model: process death at C-level call boundaries; SQLite's own atomic commit and journal recovery are trusted",
     "device id 1 and numeric recipient ids, as every caller in the library uses",
-    "one-time and signed prekeys are never overwritten under an existing id (the manager always continues after the highest id)",
+    "the manager never stores a one-time or signed prekey under an id that is taken (it continues after the highest id); the scripts "
+    "do try it: the store may refuse or replace, the record must never be lost",
 ]
 
 CONTACTS = ["4911111111", "4922222222", "15550001234"]
@@ -185,6 +186,14 @@ def _d(v):
     return repr(v)
 
 
+def _close(store):
+    """the process that owned the store ends: its connection goes away (an open transaction is rolled back)"""
+    try:
+        store.identityKeyStore.dbConn.close()
+    except Exception:
+        pass
+
+
 def run_case(case):
     out = Outcome()
     P = pool()
@@ -205,6 +214,7 @@ def run_case(case):
         model = Model()
         for step, op in enumerate(case["ops"]):
             kind = op[0]
+            may_refuse = None
             before = model.copy()
             allow = None
             fn = None
@@ -291,6 +301,29 @@ def run_case(case):
                 fn = lambda: store.storeSignedPreKey(spk.getId(), spk)  # noqa
                 out.label("store_signed")
                 repl = False
+            elif kind in ("restore_signed", "restore_prekey"):
+                # storing under an id that is already taken: the store may refuse (the record stays) or replace it - in either
+                # case a crash must leave the previous or the new record, never none
+                table = "signed" if kind == "restore_signed" else "prekeys"
+                have = before.signed if table == "signed" else before.prekeys
+                if not have:
+                    continue
+                i = sorted(have)[op[1] % len(have)]
+                old = have[i]
+                if table == "signed":
+                    other = P["signed"][(op[2] if len(op) > 2 else 0) % len(P["signed"])]
+                    new = bytes(other.serialize())
+                    model.signed[i] = new
+                    fn = lambda: store.storeSignedPreKey(i, other)  # noqa
+                else:
+                    other = P["prekeys"][(op[2] if len(op) > 2 else 0) % len(P["prekeys"])]
+                    new = (bytes(other.serialize()), False)
+                    model.prekeys[i] = new
+                    fn = lambda: store.storePreKey(i, other)  # noqa
+                allow = (table, {i: {old, new}})
+                may_refuse = (table, i, old)
+                out.label(kind)
+                repl = True
             elif kind == "remove_signed":
                 if not before.signed:
                     continue
@@ -315,6 +348,7 @@ def run_case(case):
                 out.label("replace_sender_key" if old is not None else "new_sender_key")
                 repl = old is not None
             elif kind == "reopen":
+                _close(store)
                 store = LiteAxolotlStore(dbpath)
                 d = compare(read_store(store, P), expect_of(model), own)
                 out.label("reopen")
@@ -337,7 +371,11 @@ def run_case(case):
                     exc = None
                 except Exception as e:  # noqa
                     exc = e
-            if exc is not None:
+            if exc is not None and may_refuse is not None:
+                # refused: the previous record must still be there
+                getattr(model, may_refuse[0])[may_refuse[1]] = may_refuse[2]
+                out.label("replace_refused")
+            elif exc is not None:
                 out.fail("api", "api:%s_raises:%s" % (kind, type(exc).__name__), {"step": step, "error": repr(exc)[:300]})
                 return out
             d = compare(read_store(store, P), expect_of(model), own)
@@ -377,6 +415,7 @@ def run_case(case):
                 if out.violations:
                     return out
         # final: reopen and compare everything
+        _close(store)
         store = LiteAxolotlStore(dbpath)
         d = compare(read_store(store, P), expect_of(model), own)
         if d:
@@ -415,6 +454,8 @@ def op_strategy():
         st.tuples(st.just("set_sent"), st.lists(st.integers(0, 9), min_size=1, max_size=6)).map(list),
         st.tuples(st.just("remove_prekey"), sel).map(list),
         st.just(["store_signed"]),
+        st.tuples(st.just("restore_signed"), sel, sel).map(list),
+        st.tuples(st.just("restore_prekey"), sel, sel).map(list),
         st.tuples(st.just("remove_signed"), sel).map(list),
         st.tuples(st.just("store_sender_key"), sel, sel, sel).map(list),
         st.tuples(st.just("store_sender_key"), sel, sel, sel).map(list),
@@ -428,6 +469,7 @@ def _enum_basic():
     yield {"sub": "script", "ops": [["store_sender_key", 0, 0, 0], ["store_sender_key", 0, 0, 1], ["reopen"]]}
     yield {"sub": "script", "ops": [["store_prekey"], ["store_prekey"], ["set_sent", [0]], ["reopen"], ["remove_prekey", 0], ["reopen"]]}
     yield {"sub": "script", "ops": [["store_signed"], ["store_signed"], ["remove_signed", 0], ["reopen"]]}
+    yield {"sub": "script", "ops": [["store_signed"], ["store_signed"], ["restore_signed", 0, 2], ["reopen"], ["store_prekey"], ["restore_prekey", 0, 3], ["reopen"]]}
     # the upload that is being confirmed named keys that were consumed in the meantime, in any position of the list
     for order in ([0, 1, 2], [2, 0, 1], [0, 2, 1], [2]):
         yield {"sub": "script", "ops": [["store_prekey"], ["store_prekey"], ["store_prekey"], ["remove_prekey", 2], ["set_sent", order], ["reopen"]]}
